@@ -248,7 +248,140 @@ def hyp(ctx, strategy, fn, n, shrink_s=None):
     if new and not os.environ.get("VERIF_NOSHRINK"):
         cap = shrink_s if shrink_s is not None else (120 if ctx.thorough else 25)
         for b in new[:4]:
-            _shrink(ctx, strategy, fn, b, cap)
+            if cap > 0:
+                _shrink(ctx, strategy, fn, b, cap)
+
+
+def fast(ctx, build, fn, n, shrink_s=None, rnd_class=None):
+    """Generate n cases with build(rnd) where rnd is a PRNG seeded from (ctx.shard_seed, case index) -- a pure function
+    of VERIF_SEED.  Used where a grammar needs ~100 random choices per case and Hypothesis' per-draw overhead would
+    dominate (measured 9 ms/case vs 2 ms execution).  The full case is saved, so replay does not need the PRNG;
+    failures are minimised structurally with ddmin_json."""
+    import random
+    before = set(ctx.failures)
+    cls = rnd_class or random.Random
+    try:
+        for i in range(n):
+            rnd = cls((ctx.shard_seed << 24) ^ i)
+            case = norm(build(rnd))
+            ctx.cur_case = case
+            ctx.ev()
+            if ctx.evaluations % ctx._sample_every == 0 and len(ctx.samples) < 4 and ctx.evaluations > 3:
+                ctx._sample_every *= 7
+                ctx.sample(case)
+            fn(case, ctx)
+    except BudgetHit:
+        pass
+    new = [b for b in ctx.failures if b not in before]
+    if new and not os.environ.get("VERIF_NOSHRINK"):
+        cap = shrink_s if shrink_s is not None else (60 if ctx.thorough else 15)
+        for b in new[:6]:
+            slot = ctx.failures[b]
+            size, e, msg = slot["cases"][0]
+            small, smsg = ddmin_json(ctx, fn, b, dec(e), cap)
+            if small is not None:
+                es = enc(small)
+                slot["cases"].insert(0, (len(json.dumps(es)), es, smsg))
+                slot["cases"].sort(key=lambda t: t[0])
+                del slot["cases"][3:]
+
+
+def _candidates(o):
+    """yield (path, replacement) simplifications of a JSON-like value; path = list of keys/indices; DELETE removes"""
+    if isinstance(o, list):
+        n = len(o)
+        if n:
+            step = n
+            while step >= 1:
+                for i in range(0, n, step):
+                    yield [], ("delslice", i, min(n, i + step))
+                step //= 2
+        for i, x in enumerate(o):
+            for p, r in _candidates(x):
+                yield [i] + p, r
+    elif isinstance(o, dict):
+        for k in sorted(o):
+            for p, r in _candidates(o[k]):
+                yield [k] + p, r
+    elif isinstance(o, (bytes, str)):
+        if len(o):
+            yield [], ("set", o[:0])
+            if len(o) > 1:
+                yield [], ("set", o[: len(o) // 2])
+                yield [], ("set", o[len(o) // 2:])
+                yield [], ("set", o[:-1])
+                yield [], ("set", o[1:])
+    elif isinstance(o, bool):
+        if o:
+            yield [], ("set", False)
+    elif isinstance(o, int):
+        if o:
+            yield [], ("set", 0)
+            if abs(o) > 1:
+                yield [], ("set", o // 2)
+
+
+def _apply(o, path, r):
+    import copy
+    o = copy.deepcopy(o)
+    if not path:
+        if r[0] == "set":
+            return r[1]
+        return o[: r[1]] + o[r[2]:]
+    cur = o
+    for k in path[:-1]:
+        cur = cur[k]
+    k = path[-1]
+    if r[0] == "set":
+        cur[k] = r[1]
+    else:
+        cur[k] = cur[k][: r[1]] + cur[k][r[2]:]
+    return o
+
+
+def ddmin_json(ctx, fn, bucket, case, cap_s):
+    """greedy structural minimisation of a JSON-like case that keeps failing in `bucket`"""
+    t_end = time.monotonic() + cap_s
+    sub = Ctx(ctx.pid, ctx.tier, ctx.seed, ctx.shard, ctx.nshards, known=ctx.known)
+    best_msg = [None]
+
+    def fails(c):
+        sub.failures.clear()
+        sub.cur_case = c
+        try:
+            fn(c, sub)
+        except BudgetHit:
+            raise
+        except Exception:
+            return False  # a simplification the harness cannot interpret is not a reproduction
+        if bucket in sub.failures:
+            best_msg[0] = sub.failures[bucket]["cases"][0][2]
+            return True
+        return False
+
+    try:
+        if not fails(case):
+            return None, None
+        progress = True
+        while progress and time.monotonic() < t_end:
+            progress = False
+            for path, r in list(_candidates(case)):
+                if time.monotonic() > t_end:
+                    break
+                try:
+                    cand = _apply(case, path, r)
+                except Exception:
+                    continue
+                if cand == case:
+                    continue
+                if fails(cand):
+                    case = cand
+                    progress = True
+                    break
+        fails(case)
+        return case, best_msg[0]
+    except BudgetHit:
+        return None, None
 
 
 class _Found(Exception):
@@ -486,7 +619,7 @@ def main(argv=None):
     for k in known:
         w = k.get("witness")
         still = None
-        if w:
+        if w and os.path.exists(os.path.join(ROOT, w)):
             try:
                 c, doc = replay_file(mod, pid, os.path.join(ROOT, w), a.tier, seed)
                 still = any(Ctx(pid, a.tier, seed, known=[k]).known_match(b) for b in c.failures)
